@@ -78,3 +78,31 @@ Theorem C12_chain_is_default_fuel_instance : forall seq sst,
   c12_chain seq sst = c12_chain_with (default_fuel pil_grammar) seq sst.
 Proof. exact c12_chain_is_default. Qed.
 Print Assumptions C12_chain_is_default_fuel_instance.
+
+(* ---- appended: the chain with the parser's default fuel (c12_chain itself) ---- *)
+From DSD Require Import Proofs.C12Fuel.
+
+(* kernel_roundtrip: for an aligned, well-formed, domain-level complementary complex
+   without empty strands whose names are identifiers [A-Za-z0-9_-] optionally starred,
+   c12_chain (kernel_string -> "X = ...\n" -> PIL grammar with its default fuel ->
+   resolve_kernel_loops) returns exactly (seq, sst) *)
+Theorem C12_kernel_roundtrip : forall seq sst,
+  seq <> [] -> aligned seq sst -> wf sst ->
+  Forall (fun x => x = sPlus \/ idname x = true) seq ->
+  nonempty_strands sPlus seq true = true ->
+  is_domainlevel_complement seq sst = Ok true ->
+  exists ks pattern,
+    kernel_string seq sst = Ok ks /\
+    c12_chain seq sst =
+    VList [VStr ks; VList (map val_of_tok pattern); of_ss (seq, sst); VStr tag_kc; VStr [88%N]; of_nat 0].
+Proof. exact kernel_roundtrip. Qed.
+Print Assumptions C12_kernel_roundtrip.
+
+Theorem C12_kernel_roundtrip_of_tree : forall t,
+  t <> KNil -> ids_ok t = true ->
+  c12_chain (fst (flatten t)) (snd (flatten t)) =
+  VList [ VStr (join_names [32%N] (tree_texts t));
+          VList (map val_of_tok (items_toks (items_of t)));
+          of_ss (flatten t); VStr tag_kc; VStr [88%N]; of_nat 0 ].
+Proof. exact kernel_roundtrip_tree_default. Qed.
+Print Assumptions C12_kernel_roundtrip_of_tree.
